@@ -23,6 +23,7 @@ from liquid2.builtin import parse_primitive
 from liquid2.builtin import parse_string_or_identifier
 from liquid2.builtin import quote_identifier
 from liquid2.exceptions import LiquidSyntaxError
+from liquid2.exceptions import LiquidTypeError
 from liquid2.exceptions import TemplateNotFoundError
 
 from .for_tag import ForLoop
@@ -32,6 +33,14 @@ if TYPE_CHECKING:
     from liquid2.builtin import KeywordArgument
     from liquid2.context import RenderContext
     from liquid2.expression import Expression
+
+
+def _length(val: Sequence[object], token: TokenT) -> int:
+    try:
+        return len(val)
+    except OverflowError as err:
+        # A range with more items than `len()` can count.
+        raise LiquidTypeError("the sequence is too large to loop over", token=token) from err
 
 
 class RenderNode(Node):
@@ -111,14 +120,14 @@ class RenderNode(Node):
                 forloop = ForLoop(
                     name=key,
                     it=iter(val),
-                    length=len(val),
+                    length=_length(val, self.token),
                     parentloop=context.env.undefined("parentloop", token=self.token),
                 )
 
                 namespace["forloop"] = forloop
                 namespace[key] = None
 
-                with ctx.loop_iterations(len(val)):
+                with ctx.loop_iterations(_length(val, self.token)):
                     for itm in forloop:
                         namespace[key] = itm
                         character_count += template.render_with_context(
@@ -173,14 +182,14 @@ class RenderNode(Node):
                 forloop = ForLoop(
                     name=key,
                     it=iter(val),
-                    length=len(val),
+                    length=_length(val, self.token),
                     parentloop=context.env.undefined("parentloop", token=self.token),
                 )
 
                 namespace["forloop"] = forloop
                 namespace[key] = None
 
-                with ctx.loop_iterations(len(val)):
+                with ctx.loop_iterations(_length(val, self.token)):
                     for itm in forloop:
                         namespace[key] = itm
                         character_count += await template.render_with_context_async(
